@@ -18,11 +18,11 @@ PROP = {
     ],
     "level_text": "Proof: for both settings of events_when_not_synced and terminate_on_unlinked and every notification "
                   "sequence of the grammar linked ev* synced ev* unlinked (relink ...): the replica of the hosted map "
-                  "downlink and (outside F5) of the client map downlink is the fold of the notifications received since "
-                  "linked; callbacks fire in notification order with the true old/new values and map; on_synced fires "
+                  "downlink and of the client map downlink (after the F5/F5b repairs) is the fold of the notifications "
+                  "received since linked, for update/remove/clear/take/drop; callbacks fire in notification order with the true old/new values and map; on_synced fires "
                   "exactly once, at synced, with the fold of that moment; client and hosted produce the same callback "
-                  "trace (maps: update/remove/clear; values: all). F5/F6 are kept as _fails witnesses on the model of the "
-                  "current code. Tied to the real swimos_downlink::DownlinkTask and the real hosted downlink channels "
+                  "trace (maps: update/remove/clear, and take / drop n<len event by event; values: all). F6 (own writes "
+                  "folded into the client replica) is kept as a _fails witness on the model of the current code. Tied to the real swimos_downlink::DownlinkTask and the real hosted downlink channels "
                   "(both through public API) by differential execution one notification at a time (random legal/illegal "
                   "sequences with local writes, failures and reconnects, plus all sequences up to a small depth), and an "
                   "observable-level monitor judges both implementations' callback logs against one reference fold.",
